@@ -17,9 +17,9 @@ def build_var(P, m=None, init=None):
     m = m or make_grid(P['name'], P['faces'])
     v = common.lay(P['init'] if init is None else init)
     style = P.get('bc_style')
-    if style in ('late', 'late_explicit'):
+    if style in ('late', 'late_explicit', 'late_min'):
         phi = pf.CellVariable(m, v)
-        apply_bc(phi.BCs, P['bc'])
+        apply_bc(phi.BCs, P['bc'], minimal=(style == 'late_min'))      # late_min: only entries that differ from the defaults are touched
         if style == 'late_explicit':
             # the variable first serves as the input of an explicit step (result discarded), then goes to the implicit solver
             pf.solveExplicitPDE(phi, 1.0, np.zeros(int(np.prod(full_shape(dims_of(P['faces']))))))
@@ -197,7 +197,7 @@ def problems(draw, classes=None, nmax=4, nmax3=3, periodic=True, p_periodic=0.25
         for ax, ent in enumerate(bc):
             if is_periodic(ent):
                 faces[ax] = symmetric_ends(faces[ax])
-    P = dict(name=name, faces=faces, bc=bc, spacing=g['spacing'], bc_style=draw(st.sampled_from(['passed', 'late', 'late_c', 'shared_late', 'late_explicit'])))
+    P = dict(name=name, faces=faces, bc=bc, spacing=g['spacing'], bc_style=draw(st.sampled_from(['passed', 'late', 'late_min', 'late_c', 'shared_late', 'late_explicit'])))
     P['init'] = draw(gen.cell_interior(d))
     P['scheme'] = draw(st.sampled_from(list(schemes)))
     P['D'] = draw(gen.diffusivity(d, zeros=False)) if (need_D or draw(st.booleans())) else None
